@@ -86,6 +86,7 @@ func c07Scenarios(tier string) []*Scenario {
 }
 
 func init() {
+	scenarioSets["C07"] = c07Scenarios
 	register(&CheckDef{
 		Property:  "C07",
 		Technique: "stateless schedule exploration (preemption-bounded DFS) of the instrumented library under a virtual clock",
